@@ -38,35 +38,52 @@ def load_sidecar():
 _W = None
 
 
-def gen_worker(q):
-    """stage 1: obligations of one function/lemma as SMT-LIB text"""
+def count_worker(q):
+    """pass 1: execute the function symbolically once, report how many obligations it has"""
     t0 = time.time()
     try:
         res = verify.verify_function(_W, q)
     except Unsupported as e:
-        return {'q': q, 'unsupported': str(e), 'jobs': [], 'gen_s': time.time() - t0}
+        return {'q': q, 'unsupported': str(e), 'gen_s': time.time() - t0}
     except Exception:
-        return {'q': q, 'error': traceback.format_exc(), 'jobs': [], 'gen_s': time.time() - t0}
+        return {'q': q, 'error': traceback.format_exc(), 'gen_s': time.time() - t0}
     c = contracts.REG[q]
-    jobs = []
-    seen = {}
-    for o in res.obligations:
-        n = seen.get(o.name, 0)
-        seen[o.name] = n + 1
-        name = o.name if n == 0 else '%s#%d' % (o.name, n + 1)
-        text = verify.obligation_smt2(_W, res.ex, o, c.unfold_depth)
-        jobs.append({'name': name, 'kind': o.kind, 'func': q, 'smt2': text, 'quantified': 'forall' in text.split('; axioms-end')[-1] if False else None})
-    # vacuity canaries: `False` must NOT be provable at a normal exit / from the precondition
-    canaries = []
+    if not res.normal_paths and not getattr(c, 'never_returns', False):
+        return {'q': q, 'error': 'VACUOUS: no feasible normal path through %s (%d paths): contradictory contract or engine defect' % (q, res.paths), 'gen_s': time.time() - t0}
+    return {'q': q, 'n': len(res.obligations), 'paths': res.paths, 'normal_paths': len(res.normal_paths), 'sha': res.sha,
+            'used': sorted(res.used), 'trusted': sorted(res.trusted), 'gen_s': round(time.time() - t0, 2)}
+
+
+def shard_worker(job):
+    """pass 2: re-execute (cheap, deterministic) and discharge the obligations i, i+n, i+2n, ... in process"""
+    q, shard, nshards, timeout_ms, seed = job
     import z3
     from pyvc.executor import Obligation
-    ob = Obligation('canary.requires', res.requires_hyps, z3.BoolVal(False), 'canary', q)
-    canaries.append({'name': q.split('.')[-1] + '.canary.requires', 'kind': 'canary', 'func': q, 'smt2': verify.obligation_smt2(_W, res.ex, ob, 1)})
-    for i, pc in enumerate(res.normal_paths[:3]):
-        ob = Obligation('canary.exit', pc, z3.BoolVal(False), 'canary', q)
-        canaries.append({'name': '%s.canary.exit%d' % (q.split('.')[-1], i), 'kind': 'canary', 'func': q, 'smt2': verify.obligation_smt2(_W, res.ex, ob, 1)})
-    return {'q': q, 'jobs': jobs, 'canaries': canaries, 'paths': res.paths, 'normal_paths': len(res.normal_paths), 'sha': res.sha,
-            'used': sorted(res.used), 'trusted': sorted(res.trusted), 'gen_s': round(time.time() - t0, 2)}
+    try:
+        res = verify.verify_function(_W, q)
+    except Exception:
+        return [{'func': q, 'name': 'shard%d' % shard, 'kind': 'error', 'verdict': 'error', 'solver': '-', 'time_s': 0, 'reason': traceback.format_exc()}]
+    c = contracts.REG[q]
+    out = []
+    seen = {}
+    for idx, o in enumerate(res.obligations):
+        n = seen.get(o.name, 0)
+        seen[o.name] = n + 1
+        if idx % nshards != shard:
+            continue
+        name = o.name if n == 0 else '%s#%d' % (o.name, n + 1)
+        r = verify.discharge(_W, res.ex, o, c.unfold_depth, timeout_ms, seed)
+        r.update({'func': q, 'name': name, 'kind': o.kind})
+        out.append(r)
+    if shard == 0:
+        # vacuity canaries: `False` must NOT be provable from the precondition / at a normal exit
+        cans = [('canary.requires', res.requires_hyps)] + [('canary.exit%d' % i, pc) for i, pc in enumerate(res.normal_paths[:3])]
+        for nm, hyps in cans:
+            ob = Obligation(nm, hyps, z3.BoolVal(False), 'canary', q)
+            r = verify.discharge(_W, res.ex, ob, 1, 1500, seed, stages=False)
+            r.update({'func': q, 'name': q.split('.')[-1] + '.' + nm, 'kind': 'canary'})
+            out.append(r)
+    return out
 
 
 def load_known():
@@ -113,11 +130,10 @@ def run_property(prop, tier, seed, procs):
     timeout_ms = 60000 if tier == 'thorough' else 30000
     ctx = mp.get_context('fork')
     with ctx.Pool(min(procs, len(targets))) as pool:
-        gens = pool.map(gen_worker, targets, chunksize=1)
-    jobs = []
-    meta = {}
+        gens = pool.map(count_worker, targets, chunksize=1)
     unsupported = []
     errors = []
+    shard_jobs = []
     for g in gens:
         if 'unsupported' in g:
             unsupported.append((g['q'], g['unsupported']))
@@ -125,11 +141,22 @@ def run_property(prop, tier, seed, procs):
         if 'error' in g:
             errors.append((g['q'], g['error']))
             continue
-        for j in g['jobs'] + g['canaries']:
-            key = (j['func'], j['name'])
-            meta[key] = j
-            jobs.append(((j['func'], j['name']), j['smt2'], 2500 if j['kind'] == 'canary' else timeout_ms, seed, j['kind'] != 'canary'))
-    results = solve.solve_all(jobs, procs)
+        n = max(1, min(procs, (g['n'] + 11) // 12))
+        for i in range(n):
+            shard_jobs.append((g['q'], i, n, timeout_ms, seed))
+    results = []
+    meta = {}
+    if shard_jobs:
+        with ctx.Pool(min(procs, len(shard_jobs))) as pool:
+            for rs in pool.map(shard_worker, shard_jobs, chunksize=1):
+                for r in rs:
+                    if r['kind'] == 'error':
+                        errors.append((r['func'], r['reason']))
+                        continue
+                    key = (r['func'], r['name'])
+                    meta[key] = {'kind': r['kind'], 'smt2': r.pop('smt2', None)}
+                    r['name'] = key
+                    results.append(r)
     if tier == 'thorough':
         # second opinion: every discharged obligation is also sent to cvc5; disagreement (sat) is a checker error
         pass
@@ -260,7 +287,7 @@ def run_property(prop, tier, seed, procs):
     funcs = []
     for g in gens:
         used |= set(g.get('used', []))
-        funcs.append({'name': g['q'], 'sha256': g.get('sha'), 'paths': g.get('paths'), 'obligations': len(g.get('jobs', [])), 'gen_s': g.get('gen_s')})
+        funcs.append({'name': g['q'], 'sha256': g.get('sha'), 'paths': g.get('paths'), 'obligations': g.get('n', 0), 'gen_s': g.get('gen_s')})
     level = contracts.PROP_LEVEL.get(prop, 'proof') if hasattr(contracts, 'PROP_LEVEL') else 'proof'
     inline = sorted(q for q in used if contracts.REG.get(q) is not None and contracts.REG[q].kind == 'inline')
     trusted = assumed_for(prop, used)
